@@ -8,6 +8,7 @@ B  vh c08: each scenario on ColumnChunk.Pages, value readers, RowGroup.Rows, Rea
 V  SeekMon.tla judges every recorded trace
 """
 import json
+import random
 import os
 import re
 import time
@@ -76,6 +77,19 @@ def run(tier, seed):
         add(s["cfg"], s["ops"], "simulate")
     if len(scenarios) - n_cover < 10:
         raise vf.Infra("simulation produced no scenarios:\n" + sim.out[-1500:])
+    # a directed family: going back to the first row through Reset (readers that have it) in the middle of a history
+    rnd = random.Random(seed)
+    for s in list(scenarios):
+        if s["id"] % 4 == 0 and len(s["ops"]) >= 3:
+            ops = list(s["ops"])
+            at = rnd.randrange(1, len(ops))
+            add(s["cfg"], ops[:at] + [{"op": "reset", "k": 0}] + ops[at:], "reset")
+            # ... and a seek to the row a reader that forgot to rewind its own row counter would believe it is at
+            total = sum(s["cfg"]["pageRows"])
+            a, n1, n2 = rnd.randint(0, 2), rnd.randint(1, 2), rnd.randint(1, 2)
+            if a + n1 + n2 < total:
+                add(s["cfg"], [{"op": "seek", "k": a}, {"op": "read", "k": n1}, {"op": "reset", "k": 0}, {"op": "read", "k": n2},
+                               {"op": "seek", "k": a + n1 + n2}, {"op": "read", "k": 0}] + ops, "reset")
     vf.log(f"[C08] X: {x.distinct} states / {x.generated} transitions; edges {len(edges)} covered {ncov}; "
            f"scenarios {n_cover} cover + {len(scenarios)-n_cover} simulated")
 
@@ -137,7 +151,7 @@ def run(tier, seed):
 
 
 def _short(ops):
-    return " ".join("R" if o["op"] == "read" else f"S{o['k']}" for o in ops)
+    return " ".join("R" if o["op"] == "read" else "Z" if o["op"] == "reset" else f"S{o['k']}" for o in ops)
 
 
 def replay(path, seed):
